@@ -48,3 +48,65 @@ Print Assumptions C04_single_entry_exit.
 Print Assumptions C04_next_prev_mirror.
 Print Assumptions C04_next_meaning.
 Print Assumptions C04_cond_branch_order.
+
+(* ------------------------------------------------------------------------------------------------------------
+   Extension (second round): theorems from Lemmas/{WalkLemmas,OutputLemmas,TypeExec,NoMiss2,ParseLemmas2,PaddingLemmas}.v *)
+From Coq Require Import List String NArith ZArith Bool Arith.
+From Tealer Require Import Tables Leaves LeafPrelude Syntax Parse Cfg StackAst Keys Analysis Domains Detect Group Output Runs Eval Exec InsExec Paths WalkLemmas OutputLemmas TypeExec NoMiss2 ParseLemmas2 PaddingLemmas.
+
+(* every instruction reachable by the CFG-free, instruction-level semantics (Spec/InsExec.v) lies in exactly one retained block *)
+Theorem C04_reachable_code_is_retained :
+  forall (p : prog) (t : teal) (pc : nat) (st : list nat),
+       parse_teal p = Ok t ->
+       IReach p (pc, st) ->
+       exists b : block,
+         In b (t_blocks t) /\
+         In pc (b_ins b) /\
+         fblock (whole_function t) (b_idx b) = Some b /\
+         pc_block t pc = b_idx b /\ (forall b' : block, In b' (t_blocks t) -> In pc (b_ins b') -> b' = b).
+Proof. exact @reachable_pc_in_unique_block. Qed.
+
+(* every instruction-level step either stays inside a block (consecutive positions) or leaves a block at its last instruction and enters a block at its first, along an edge of the global graph (rstep: successor edge / callee entry after callsub / block after the matching callsub after retsub) *)
+Theorem C04_blocks_entered_at_first_left_at_last :
+  forall (p : prog) (t : teal) (c c' : iconfig), parse_teal p = Ok t -> IReach p c -> istep p c c' -> step_shape t c c'.
+Proof. exact @istep_block_walk. Qed.
+
+(* THE WALK CLAUSE: the block sequence of any instruction-level execution from pc 0 is a run (walk) of the contract's global graph *)
+Theorem C04_execution_is_walk :
+  forall (p : prog) (t : teal) (cfgs : list iconfig), parse_teal p = Ok t -> IRun p cfgs -> Run (whole_function t) (abs_trace t cfgs).
+Proof. exact @irun_is_run. Qed.
+
+(* ... and conversely every run of the graph is induced by an instruction-level execution (the graph has no spurious walks at control level) *)
+Theorem C04_walks_are_executions :
+  forall (p : prog) (t : teal) (cfgs : list rconfig),
+       parse_teal p = Ok t -> Run (whole_function t) cfgs <-> (exists icfgs : list iconfig, IRun p icfgs /\ abs_trace t icfgs = cfgs).
+Proof. exact @run_iff_irun. Qed.
+
+(* bz/bnz at pc level: first successor = block of pc+1 (fall-through), second = block of the jump target *)
+Theorem C04_cond_branch_order_pc :
+  forall (p : prog) (t : teal) (pc : nat) (st : list nat) (l : string) (k : nat),
+       parse_teal p = Ok t ->
+       IReach p (pc, st) ->
+       op_at p pc = Some (IBZ l) \/ op_at p pc = Some (IBNZ l) ->
+       label_at p l k ->
+       S pc < Datatypes.length p ->
+       istep p (pc, st) (S pc, st) /\
+       istep p (pc, st) (k, st) /\
+       (exists b : block,
+          In b (t_blocks t) /\
+          b_idx b = pc_block t pc /\
+          pc = last (b_ins b) 0 /\
+          b_next b = (if (pc_block t k =? pc_block t (S pc))%nat then pc_block t (S pc) :: nil else pc_block t (S pc) :: pc_block t k :: nil)).
+Proof. exact @cond_branch_order_pc. Qed.
+
+(* the specification's label lookup agrees with the model's find_label *)
+Theorem C04_label_lookup_agrees :
+  forall (p : prog) (l : string) (k : nat), label_at p l k <-> find_label p l = Some k.
+Proof. exact @label_at_find_label. Qed.
+
+Print Assumptions C04_reachable_code_is_retained.
+Print Assumptions C04_blocks_entered_at_first_left_at_last.
+Print Assumptions C04_execution_is_walk.
+Print Assumptions C04_walks_are_executions.
+Print Assumptions C04_cond_branch_order_pc.
+Print Assumptions C04_label_lookup_agrees.
